@@ -327,7 +327,11 @@ class Run:
             if self.last_rid is None:
                 return
             for i in range(2):
-                outer, _ = c.protect(Message(code=codes.CONTENT, payload=b"r"), request_id=self.last_rid)
+                try:
+                    outer, _ = c.protect(Message(code=codes.CONTENT, payload=b"r"), request_id=self.last_rid)
+                except o.ContextUnavailable:
+                    self.trace.append("   protect of a response refused (exhausted)")
+                    return "exhausted"
                 self.note_issue(self.number_of(outer))
         elif op[0] in ("Q", "QP"):
             # this node in the client role: an own request, answered by the peer without (Q) or with (QP) a Partial IV of its own
@@ -520,6 +524,10 @@ def job(arg):
         for nts in (MAX - 3, MAX - 2, MAX - 1, MAX):
             for recv in ({"index": 0, "bitfield": 0}, "unknown"):
                 r = check_history(res, (("P",), ("P",), ("P",), ("S",), ("P",), ("P",)), 1, 4, {"next-to-send": nts, "received": recv}, crashes=(nts < MAX))
+        # ... and responses at the end of the number space: the second response to a request needs a number of its own and there is none
+        for nts in (MAX - 2, MAX - 1, MAX):
+            check_history(res, (("A", 0), ("R",), ("A", 1), ("R",), ("P",), ("A", 5), ("R",)), 1, 4, {"next-to-send": nts, "received": {"index": 0, "bitfield": 0}},
+                          crashes=(tier == "thorough" and nts < MAX))
         # numbers whose encoding grows by a byte, or ends in zero bytes, part of the way through the history
         for nts in (254, 255, 65534, 65535, 2 ** 24 - 2, 2 ** 32 - 2, 0x12FE):
             for start, limit in ((1, 4), (10, 10000)):
